@@ -85,6 +85,7 @@ def build_variant(name):
     engfiles = sorted(glob.glob(os.path.join(VERIF, "engine/vgomp/*.[ch]")))
     h = tree_hash(engfiles)
     h.update(repr((cc, cflags, ldflags, eng)).encode())
+    h.update(open(os.path.abspath(__file__), "rb").read())
     hx = h.hexdigest()[:16]
     d = os.path.join(BUILD, "%s-%s" % (name, hx))
     os.makedirs(BUILD, exist_ok=True)
@@ -109,6 +110,9 @@ def build_variant(name):
             o = os.path.join(d, "obj", "cli_" + src[:-2] + ".o")
             jobs.append(([cc] + COMMON + cflags + inc + ["-c", p, "-o", o], o))
             cli.append(o)
+        # the CLI's main() as a callable function, for in-process observation (C04/C05/C09)
+        jobs.append(([cc] + COMMON + cflags + inc + ["-Dmain=kalign_cli_main", "-c", os.path.join(REPO, "src", "run_kalign.c"),
+                      "-o", os.path.join(d, "cli_main_renamed.o")], os.path.join(d, "cli_main_renamed.o")))
         engobjs = []
         for e in eng:
             if e == "vgomp":
@@ -147,7 +151,7 @@ def build_variant(name):
         lock.close()
 
 
-def build_harness(name, variant, sources, extra_cflags=(), extra_ld=(), link_lib=True, cc=None):
+def build_harness(name, variant, sources, extra_cflags=(), extra_ld=(), link_lib=True, cc=None, with_cli=False):
     """Compiles harness `name` from `sources` (paths relative to /verif) against the variant."""
     d = build_variant(variant)
     vcc, cflags, ldflags, eng = VARIANTS[variant]
@@ -157,7 +161,7 @@ def build_harness(name, variant, sources, extra_cflags=(), extra_ld=(), link_lib
     h = hashlib.sha256()
     for f in srcs + deps:
         h.update(open(f, "rb").read())
-    h.update(repr((extra_cflags, extra_ld, link_lib, cc)).encode())
+    h.update(repr((extra_cflags, extra_ld, link_lib, cc, with_cli)).encode())
     exe = os.path.join(d, "%s-%s" % (name, h.hexdigest()[:12]))
     lock = open(os.path.join(BUILD, ".lock-h-" + name + "-" + variant), "w")
     fcntl.flock(lock, fcntl.LOCK_EX)
@@ -171,6 +175,8 @@ def build_harness(name, variant, sources, extra_cflags=(), extra_ld=(), link_lib
                "-I" + os.path.join(VERIF, "engine")]
         hflags = [f for f in cflags if f != "-fopenmp"]
         cmd = [cc] + COMMON + hflags + list(extra_cflags) + inc + srcs
+        if with_cli:
+            cmd += [os.path.join(d, "cli_main_renamed.o"), os.path.join(d, "obj", "cli_parameters.o")]
         if link_lib:
             cmd += [os.path.join(d, "libkalign.a")]
             if eng:
